@@ -17,9 +17,17 @@ import (
 type Data struct {
 	Seed uint64 `json:"seed"`
 	Len  int    `json:"len"`
+	// Raw, when set, is the data itself (Len = len(Raw)); otherwise pattern bytes from Seed.
+	Raw []byte `json:"raw,omitempty"`
 }
 
+// RawData makes explicit data.
+func RawData(b []byte) Data { return Data{Len: len(b), Raw: b} }
+
 func (d Data) Bytes() []byte {
+	if d.Raw != nil {
+		return append([]byte{}, d.Raw...)
+	}
 	b := make([]byte, d.Len)
 	x := d.Seed
 	for i := range b {
@@ -30,6 +38,9 @@ func (d Data) Bytes() []byte {
 }
 
 func (d Data) Field() string {
+	if d.Raw != nil {
+		return HexField(d.Raw)
+	}
 	if d.Len == 0 {
 		return "-"
 	}
